@@ -21,10 +21,10 @@ pub static DEF: PropDef = PropDef {
   stack_mb: 8,
   case_cpu_s: 40.0,
   crash_is_event: true,
-  rule: "Every public entry point (cddl_from_str, CDDL::from_slice, Display, root_type_name_from_cddl_str, ParentVisitor::new, validate_json_from_str, validate_cbor_from_slice, validate_csv_from_str with both header flags, decode_cbor) is called on (a) scaling ladders n,2n,4n.. of nesting/alias/cycle/repetition/size families up to the property's bound (64 KiB, depth 64), (b) seed schemas and the repository fixtures under single/double-edit mutation, (c) token soup, (d) cyclic and ill-typed schema templates x documents, (e) generated and mutated JSON/CBOR/CSV documents incl. hostile heads and numeric extremes. Events: panic, worker death by signal, CPU budget, growth worse than 16x per doubling. Non-trivial = input longer than 8 bytes; distinct by hash of (entry, input).",
+  rule: "Every public entry point (cddl_from_str, CDDL::from_slice, Display, root_type_name_from_cddl_str, ParentVisitor::new, validate_json_from_str, validate_cbor_from_slice, validate_csv_from_str with both header flags, decode_cbor) is called on (a) scaling ladders n,2n,4n.. of nesting/alias/cycle/repetition/size families up to the property's bound (64 KiB, depth 64), (b) seed schemas and the repository fixtures under single/double-edit mutation, (c) token soup, (d) cyclic and ill-typed schema templates x documents, (e) generated and mutated JSON/CBOR/CSV documents incl. hostile heads and numeric extremes. Events: panic, worker death by signal, CPU budget, local growth degree above 6 between consecutive ladder sizes. Non-trivial = input longer than 8 bytes; distinct by hash of (entry, input).",
   assumptions: &[
     "time is thread CPU time / child CPU time from /proc, never wall clock; the wall-clock watchdog only yields inconclusive",
-    "super-polynomial is decided as: a ladder step is only attempted when the previous step used <= budget/16, so a step that exhausts the budget grew by more than 16x on one doubling; or three consecutive doublings above 2 ms each grew > 10x",
+    "super-polynomial is decided per ladder on thread CPU time: the local degree ln(t2/t1)/ln(n2/n1) between consecutive sizes exceeds 6 with t1 >= 4 ms and t2 >= 60 ms; a ladder step is only attempted when the previous one used <= budget/16",
     "stack size 8 MiB (Rust main-thread default); 64 MiB would hide overflows a user would see",
     "dev profile with debug assertions and overflow checks (a panic only reachable with overflow checks is still reported; release profile run is part of the thorough tier)",
   ],
@@ -153,9 +153,10 @@ fn fam_of(fam: &str, schema: &str) -> String {
     }
     m.1.clone()
   });
+  // "<class or family>\t<origin>": the part after the tab is diagnostic only (not in signatures)
   match cls {
-    Some(c) => c,
-    None => fam.split(':').next().unwrap_or(fam).to_string(),
+    Some(c) => format!("{}\t{}", c, fam),
+    None => format!("{}\t{}", fam.split(':').next().unwrap_or(fam), fam),
   }
 }
 
@@ -226,7 +227,7 @@ fn rep(s: &str, n: usize) -> String {
   s.repeat(n)
 }
 
-const DEPTHS: &[usize] = &[2, 4, 8, 16, 32, 64];
+const DEPTHS: &[usize] = &[2, 4, 6, 8, 12, 16, 24, 32, 48, 64];
 const SIZES: &[usize] = &[64, 128, 256, 512, 1024, 2048, 4096, 8192];
 const SMALL: &[usize] = &[8, 16, 32, 64, 128, 256, 512];
 
@@ -337,6 +338,7 @@ fn run_ladder(ctx: &mut Ctx, l: &Ladder) {
   ctx.count("ladders_run");
   let budget = DEF.case_cpu_s;
   let mut times: Vec<(usize, f64)> = vec![];
+  let mut flagged = false;
   for &n in l.sizes {
     let j = (l.make)(n);
     if job_len(&j) > 65536 {
@@ -344,10 +346,10 @@ fn run_ladder(ctx: &mut Ctx, l: &Ladder) {
     }
     if let Some(&(_, tprev)) = times.last() {
       if tprev > budget / 16.0 {
-        // cannot attempt the next doubling within the budget without confusing
-        // polynomial slowness with a hang: stop, recorded as truncated
+        // a polynomial of degree <= 6 grows at most 11.4x on a 1.5x step and 64x on a
+        // doubling: the next step could exhaust the budget without being super-polynomial
         ctx.count("ladders_truncated_slow_but_polynomial");
-        ctx.note(format!("ladder {} stopped at n={} (t={:.2}s): next doubling could exceed the budget without being super-polynomial", l.name, n, tprev));
+        ctx.note(format!("ladder {} stopped before n={} (previous step {:.2}s)", l.name, n, tprev));
         break;
       }
     }
@@ -356,24 +358,41 @@ fn run_ladder(ctx: &mut Ctx, l: &Ladder) {
     let t = run_job(ctx, &fam, &j);
     times.push((n, t));
     ctx.count("ladder_steps");
-  }
-  // growth rule: three consecutive doublings, each above 2 ms, each > 10x
-  let mut streak = 0;
-  for w in times.windows(2) {
-    let (n0, t0) = w[0];
-    let (n1, t1) = w[1];
-    if n1 == n0 * 2 && t0 > 0.002 && t1 > 10.0 * t0 {
-      streak += 1;
-      if streak >= 3 {
-        ctx.report(
-          &format!("superpoly:{}", l.name),
-          json!({"ladder": l.name, "times": times.iter().map(|(n, t)| json!([n, t])).collect::<Vec<_>>()}),
-        );
-        break;
+    // growth rule, decided on thread CPU time: the local degree
+    // ln(t2/t1)/ln(n2/n1) between two consecutive sizes exceeds 6 (worse than n^6)
+    // with both measurements well above timer noise
+    if times.len() >= 2 {
+      let (n0, t0) = times[times.len() - 2];
+      let (n1, t1) = times[times.len() - 1];
+      if t0 >= 0.004 && t1 >= 0.060 {
+        let mut deg = (t1 / t0).ln() / (n1 as f64 / n0 as f64).ln();
+        if deg > 6.0 && t1 < budget / 4.0 {
+          // confirm against measurement noise (lazy initialisation, page faults under
+          // load): repeat both sizes twice and decide on the minimum per size
+          let (mut m0, mut m1) = (t0, t1);
+          for _ in 0..2 {
+            m0 = m0.min(run_job(ctx, &format!("{}@{}", l.name, n0), &(l.make)(n0)));
+            m1 = m1.min(run_job(ctx, &format!("{}@{}", l.name, n1), &(l.make)(n1)));
+          }
+          ctx.count("ladder_growth_remeasured");
+          deg = if m0 >= 0.004 && m1 >= 0.060 { (m1 / m0).ln() / (n1 as f64 / n0 as f64).ln() } else { 0.0 };
+          let k = times.len();
+          times[k - 2].1 = m0;
+          times[k - 1].1 = m1;
+        }
+        if deg > 6.0 {
+          ctx.report(
+            &format!("superpoly:{}", l.name),
+            json!({"ladder": l.name, "local_degree": deg, "cpu_seconds_by_n": times.iter().map(|(n, t)| json!([n, t])).collect::<Vec<_>>()}),
+          );
+          flagged = true;
+          break;
+        }
       }
-    } else {
-      streak = 0;
     }
+  }
+  if flagged {
+    ctx.count("ladders_flagged_superpolynomial");
   }
   ctx.sample("ladder", 4, || {
     json!({"ladder": l.name, "cpu_seconds_by_n": times.iter().map(|(n, t)| json!([n, (t * 1e6).round() / 1e6])).collect::<Vec<_>>()})
